@@ -6,7 +6,7 @@ from glom import glom, T, S, A, Path, PathAccessError, GlomError
 from glom.core import TType
 import glom.core as gc
 
-from vkit.common import start, reach, fail, known_open, concretize
+from vkit.common import start, reach, fail, known_open, concretize, OUT
 from vkit.ob import Ob
 import vkit.stubs  # noqa: F401
 
@@ -318,6 +318,30 @@ def roundtrip1(root: int, c0: int, leaf: int) -> bool:
     return _roundtrip(x, leaf)
 
 
+EQ_LITS = [0, 0.0, False, 1, 1.0, True, -1, -1.0]
+
+
+def roundtrip_pair(k0: int, k1: int, how: int, leaf: int) -> bool:
+    """two expressions that differ only in an equal-valued literal of another type (0 / 0.0 / False, 1 / 1.0 / True), the first
+    one built, repr'd, pickled and evaluated before the second: the second still round-trips as itself"""
+    start()
+    k0, k1, how = concretize(k0, 0, len(EQ_LITS) - 1), concretize(k1, 0, len(EQ_LITS) - 1), concretize(how, 0, 2)
+    if k0 is OUT or k1 is OUT or how is OUT:
+        return True
+    a, b = EQ_LITS[k0], EQ_LITS[k1]
+    mk = [lambda l: T[l], lambda l: T.a[l], lambda l: T[l:l]][how]
+    first = mk(a)
+    repr(first)
+    pickle.dumps(first)
+    second = mk(b)
+    reach('pair')
+    r = repr(second)
+    want = ['T[%r]', 'T.a[%r]', 'T[%r:%r]'][how] % ((b,) if how < 2 else (b, b))
+    if r != want:
+        return fail(why='repr of the second expression', r=r, want=want)
+    return _roundtrip(second, leaf)
+
+
 def roundtrip2(root: int, c0: int, c1: int, leaf: int) -> bool:
     start()
     r = T if root == 0 else (S if root == 1 else A)
@@ -435,6 +459,8 @@ def obligations(tier):
                 for c1 in range(NSTEPS):
                     obs.append(Ob(roundtrip3, fixed={'root': root, 'c0': c0, 'c1': c1, 'leaf': 7}, pre='0 <= c2 < %d' % NSTEPS,
                                   name='roundtrip3_r%d_%d_%d' % (root, c0, c1)))
+    for k0 in range(len(EQ_LITS)):
+        obs.append(Ob(roundtrip_pair, fixed={'k0': k0, 'leaf': 7}, pre='0 <= k1 < %d and 0 <= how <= 2' % len(EQ_LITS), name='roundtrip_pair_%d' % k0))
     for n in range(0, 3 if q else 4):
         fx = {'n': n}
         for nm in ['c0', 'c1', 'c2'][n:]:
